@@ -25,7 +25,26 @@ MANIFEST = {
             "LibSecpOk the libsecp256k1 verify equals Generator.verify for 1 <= z < 2^256, 0 <= r,s < 2^256, and its sign returns the same "
             "r and s or n-s, the low-S one (C01_native_libsecp_*). Models tied to the code by differential correspondence in both "
             "arithmetic configurations (pure model vs both classes; the OpenSSL glue model vs the OpenSSL class: ops ossl_sign/verify/"
-            "recover) and an independent Python RFC 6979 on every run.",
+            "recover) and an independent Python RFC 6979 on every run. "
+            "FOR NOBODY ELSE (converse of recovery; secp256k1/secp256r1, where #E = n and p <= 2n are proved): a reduced curve point Q verifies "
+            "(z, r, s) IF AND ONLY IF 1 <= r,s < n and Q is among possible_public_pairs_for_signature(z, (r, s)) or among "
+            "possible_public_pairs_for_signature(z, (r + n, s)) (C01_verifying_keys_secp256k1/_secp256r1; in the group: Q = r^-1(s*R - z*G) for a "
+            "point R with x(R) mod n = r, C01_verifying_keys_group); recovery as Generator users call it looks at the abscissa r only, so a key "
+            "whose nonce point has x(R) = r + n verifies and is not returned (it is for r >= p - n: C01_verifying_keys_eq_recovered_*); any "
+            "verifying key with x(R) < n is returned (C01_recover_complete_of_verify_*); at most four keys verify one (z, r, s) "
+            "(C01_verifying_keys_finite_*) and at most four residue classes of z verify under one key and (r, s) "
+            "(C01_verifying_hashes_finite_*); verify sees z modulo n only (C01_verify_hash_mod_n_*: z and z + n alike, z = n not refused). "
+            "NONCE: deterministic_generate_k is a function of int2octets(d) || bits2octets(z) alone (C01_nonce_factors_through_seed), that seed "
+            "is the RFC's (C01_nonce_seed_eq_spec) and an injective encoding of (d, bits2int(z) mod n) (C01_nonce_seed_injective); on a "
+            "256-bit order the (key, hash) pairs sharing their HMAC input are exactly z' in {z, z + n, z - n} with the same key "
+            "(C01_nonce_seed_collisions_256), and there the whole signature coincides (C01_sign_hash_plus_n_*). "
+            "KEY.SIGN / KEY.VERIFY (Model/KeySign.lean over the DER model of C10): Key.verify returns a Boolean for EVERY byte string as "
+            "signature and as hash (C01_key_verify_total: sigdecode_der raises only UnexpectedDER / ValueError, Generator.verify nothing on a "
+            "curve point), equals Generator.verify of the strictly decoded pair and False when it does not decode (C01_key_verify_eq_verify), "
+            "Key.verify(h, Key.sign(h)) = True under the key, its public_copy() and any key with the same pair (C01_key_sign_verifies), a "
+            "public key raises RuntimeError (C01_key_sign_public), and in any history of sign / verify / public_copy / from_sec(sec()) steps on "
+            "one object every verify answer is that of a fresh public key (C01_key_history_fresh). The driver evaluates the model with the "
+            "_powers table of the two curves built once; C01_driver_cached_is_model proves these functions equal to the model's.",
     "note": "libsecp256k1 is ABSENT from this sandbox: its glue (native/secp256k1.py: sign with low-S normalisation, verify, the key and "
             "signature parsing around the calls) is modelled and its contract LibSecpOk stated BY READING ONLY - no correspondence run is "
             "possible here; evidence.coverage.libsecp256k1 of C02 reports whether the library is loadable where the check runs. Caveats "
@@ -41,21 +60,42 @@ MANIFEST = {
             "n*Q = infinity; for secp256k1 and secp256r1 it is discharged (C01_verify_iff_secp256k1/_secp256r1, C01_verify_neg_s_*, "
             "C01_recover_sound_secp256k1/_secp256r1 hold for every curve point, no torsion or 2-torsion hypothesis): #E(F_p) = n is "
             "proved in Lean without Hasse (#E <= 2p+1 < 3n, n | #E, no point of order two by a generated kernel-checked certificate). "
-            "Known finding: on toy curves the retry loop k += 1 can reach k = n and raise TypeError (C01_sign_returns_refuted).",
+            "Known finding: on toy curves the retry loop k += 1 can reach k = n and raise TypeError (C01_sign_returns_refuted). "
+            "READING OF TWO GLOSSES OF THE STATEMENT (no pycoin defect, true of every ECDSA / RFC 6979 implementation): (1) 'rejects a "
+            "signature presented with any other hash' - a signature (r, s) valid for z under d*G is valid for z' = -z - 2rd (mod n) too "
+            "(C01_second_hash_verifies; toy witness replayed: curve of order 53, d = 2, (r, s) = (14, 41) verifies for z = 1 and z = 49), "
+            "and for z + n; what holds is the verification equation, and 'at most four classes of z' - the rest is an assumption on the hash "
+            "function. (2) 'the nonce is never shared between distinct (key, hash) pairs' - RFC 6979's bits2octets reduces the hash modulo n, so "
+            "z and z + n (both below 2^256; e.g. secp256k1, d = 7, z = 5 and z = 5 + n) get the same nonce BY THE RFC; the signatures are then "
+            "identical, nothing leaks; 'distinct' has to be read modulo n. pycoin never reduces z itself (verify refuses z = 0 but accepts z = n; "
+            "from_bytes_32 has no length check, so Key.sign of a hash longer than 32 bytes with value >= 2^256 + n raises OverflowError - outside "
+            "the quantifier). possible_public_pairs_for_signature enumerates x = r only (never r + n): keys whose nonce point has x(R) >= n are "
+            "not recovered unless the caller passes r + n. Key histories: the model of public_copy / from_sec(sec()) keeps the pair; the Key "
+            "object's hash160 caches are C10's concern.",
     "technique": "Lean 4 proof (Mathlib group law over ZMod p, field arithmetic mod n; native glue over explicit library contracts) + "
                  "differential correspondence model vs implementation per backend, glue model vs OpenSSL class + independent RFC 6979 "
                  "reference + exhaustive toy-curve enumeration (test)",
 }
-RULE = ("ops sign/verify/recover/rfc6979/rfc6979n/rfc6979_spec/keysign/keyverify/toy_sign/toy_verify on secp256k1, secp256r1 (pure and OpenSSL), toy curves of prime "
+RULE = ("ops sign/verify/recover/rfc6979/rfc6979n/rfc6979_spec/keysign/keyverify/keysign_der/keyverify_der/keyhist/toy_sign/toy_verify/toy_keys on secp256k1, secp256r1 (pure and OpenSSL), toy curves of prime "
         "order; ossl_sign/ossl_verify/ossl_recover: Generator methods over the glue model of native/openssl.py against the OpenSSL class; "
         "boundary scalars d,z in {1,2,n-1}, z in {n,n+1,2^256-1}, r,s in {0,n,n+1,2^256-1}, s -> n-s, foreign key, foreign "
-        "hash, single-bit changes of d and z; distinct = distinct op line; trivial = z = 0")
+        "hash, single-bit changes of d and z, z +- n (same nonce, same signature, same verdict), the second hash -z - 2rd, a constructed nonce "
+        "point with x(R) = n + t on both 256-bit curves; keysign_der/keyverify_der/keyhist: Key.sign / Key.verify of the BTC Key class "
+        "(secp256k1) and of Key.make_subclass over secp256r1 on byte strings - the DER blob itself, ~45 malformed blobs (empty, truncated, "
+        "trailing bytes outside / inside the sequence, wrong tags, wrong / long-form / indefinite lengths, empty INTEGER, negative, "
+        "non-minimal and oversized INTEGERs, bit flips), hashes of other lengths, keys from secret / pair / SEC, histories (sign, verify, sign "
+        "again, public_copy, from_sec(sec())) on one object, each op evaluated in both arithmetic configurations; toy_keys: all curve "
+        "points verifying (z, r, s) against recovery at r and r + n; distinct = distinct op line; trivial = z = 0")
 ASSUMPTIONS = [
     "libsecp256k1 is not installed: the libsecp256k1 backend (which also low-S normalises) is never run; its glue model and the contract LibSecpOk "
     "(hypothesis of the C01_native_libsecp_* theorems) are tied to native/secp256k1.py and the library's documentation by reading only",
     "libcrypto does what LibCryptoOk says (hypothesis of the C01_native_openssl_* theorems; probed on the real library by C02's ossl_probe ops), not verified",
     "hashlib/hmac SHA-256 are modelled by Pycoin.Hash.sha256 / hmacSha256L (validated against hashlib on every run), not verified",
-    "distinctness of RFC 6979 nonces for distinct (d, z) is a property of HMAC-SHA256 (assumption); what is checked is k = RFC6979(d, z)",
+    "distinctness of RFC 6979 nonces for distinct seeds int2octets(d) || bits2octets(z) is a property of HMAC-SHA256 (assumption: a collision of "
+    "HMAC-DRBG outputs on distinct inputs); proved: the nonce is a function of that seed and the seed is injective in (d, bits2int(z) mod n); checked: "
+    "k = RFC6979(d, z), k changes with a bit of d or z, k(d, z) = k(d, z +- n)",
+    "that the second hash -z - 2rd of a signature (and the up to four keys r^-1(s*R - z*G)) cannot be exploited is an assumption on the hash function / the "
+    "discrete logarithm (unforgeability), not a theorem",
 ]
 TRUSTED = ["harness/props/curve_common.py: rfc6979_ref, an independent RFC 6979 written from the RFC text with hashlib/hmac",
            "lean/Pycoin/Proofs/NativeContract.lean (LibCryptoOk) and lean/Pycoin/Proofs/NativeSecp.lean (LibSecpOk): the statements about the C libraries the native theorems assume"]
